@@ -133,6 +133,7 @@ func (sc *StateCache) commit(bc *BlockCache) {
 
 	// Clear the pre-commit cache
 	bc.cache = make(map[string]valueNode)
+	bc.committed = true
 	logging.Logger.Debug("statecache - commit",
 		zap.String("block", bc.blockHash),
 		zap.Int64("bc_hits", bc.hits),
